@@ -32,12 +32,25 @@ def genBytes (seed n : Nat) : List Byte :=
 
 def unhex (s : String) : List Byte := if s = "-" then [] else unhexAux s.toList []
 
-/-- payload operand of the parser machine: hex, or generated `@seed:n` -/
+/-- aperiodic generated payload `#seed:n` (splitmix-style mixing of seed and index) -/
+def mixBytes (seed n : Nat) : List Byte :=
+  (List.range n).map fun k =>
+    let x : UInt64 := UInt64.ofNat seed * 0x9E3779B97F4A7C15 + UInt64.ofNat k * 0xBF58476D1CE4E5B9
+    let x := x ^^^ (x >>> 31)
+    let x := x * 0x94D049BB133111EB
+    let x := x ^^^ (x >>> 29)
+    UInt8.ofNat ((x >>> 24).toNat % 256)
+
+/-- payload operand of the parser machine: hex, or generated: `@seed:n` (period 1009, 5 letters),
+    `#seed:n` (aperiodic), `=byte:n` (a run) -/
 def payload (s : String) : List Byte :=
-  if s.startsWith "@" then
-    match (s.drop 1).toString.splitOn ":" with
-    | [a, b] => genBytes (a.toNat?.getD 0) (b.toNat?.getD 0)
-    | _ => []
+  let two (t : String) : Nat × Nat :=
+    match t.splitOn ":" with
+    | [a, b] => (a.toNat?.getD 0, b.toNat?.getD 0)
+    | _ => (0, 0)
+  if s.startsWith "@" then let (a, b) := two (s.drop 1).toString; genBytes a b
+  else if s.startsWith "#" then let (a, b) := two (s.drop 1).toString; mixBytes a b
+  else if s.startsWith "=" then let (a, b) := two (s.drop 1).toString; List.replicate b (UInt8.ofNat a)
   else unhex s
 
 def hexChar (n : Nat) : Char := if n < 10 then Char.ofNat (48 + n) else Char.ofNat (87 + n)
